@@ -2,7 +2,7 @@ PROPERTY = "C08"
 ENTRY = {
         "text": "IgnoreAnon.tla models the tail stage (query log memory buffer + querylog.json + statistics unit/top clients + log API) as a state machine over "
                 "scripts 'configure, record, flush, reconfigure, record, reconfigure'; TLC checks the statement's invariants (nothing ignored recorded, log API returns nothing "
-                "currently ignored, addresses stored/reported after the last toggle anonymised) on the intended mechanism over all 1622 scripts (6 names incl. root and a suffix look-alike x 9 senders "
+                "currently ignored, addresses stored/reported after the last toggle anonymised) on the intended mechanism over all 1808 scripts (6 names incl. root and a suffix look-alike x 9 senders "
                 "(v4, v6, 4-in-6, ClientIDs) x 3 rounds + ANY probes; run-time SetAnonymise/SetQueryLogEnabled/SetStatsEnabled in every combination through the current and the legacy endpoint; 6 ignore-list families incl. ||n^, *.n, |.^; persistent client by IP / anonymised IP / CIDR surviving or not "
                 "surviving anonymisation / MAC lease / ClientID x ignore flags x anonymise x refuse-ANY) and shows the as-built mechanism and the strict search-time clause violated. "
                 "Every script is replayed against the real wiring of package home (clients container + glue, querylog, stats, IPMut, dnsforward server; UDP and DoH transports) and "
@@ -11,6 +11,6 @@ ENTRY = {
         "note": "Trusted: TLC, conc()/abs() of zz_verif_c08_test.go, my reading of the four ignore-rule forms (validated on the unchanged tree). Expected-present entries that are missing are "
                 "treated as an unreliable observation channel (exit 2), not as a violation: the statement forbids recording, it does not demand it. A DNS message has no relative names, so "
                 "'without trailing dot' does not exist at this entry point; nothing is demanded of records stored before an anonymisation toggle. "
-                "Three findings fixed in /repo, one open (see known_findings/C08.jsonl).",
+                "Three findings fixed in /repo, three open (search-time half; zoned IPv6 identifier in statistics; 4-in-6 identifier) -- see known_findings/C08.jsonl.",
         "technique": "TLA+ state-machine spec model-checked and enumerated by TLC; script replay into the real code with per-step store comparison + TLC trace validation",
     }
